@@ -133,13 +133,18 @@ func newPkg(pkg *packages.Package, u *Universe) Package {
 				if named != nil {
 					p.methods[named] = append(p.methods[named], x)
 				}
-			} else {
+			} else if x.Parent() == pkg.Types.Scope() {
 				p.funcs[x.Name()] = x
 			}
 		case *types.TypeName:
-			p.types[x.Name()] = x
+			// only package-level declarations, not local types or type parameters
+			if x.Parent() == pkg.Types.Scope() {
+				p.types[x.Name()] = x
+			}
 		case *types.Const:
-			p.constants[x.Name()] = x
+			if x.Parent() == pkg.Types.Scope() {
+				p.constants[x.Name()] = x
+			}
 		}
 	}
 
